@@ -18,7 +18,7 @@ open Librfn.Sched Librfn.Model.Fibre Librfn.Spec.Sched Librfn.Sched.L
     truncations is the true difference — what makes every comparison in fibre.c cyclic -/
 theorem cyclecmp_window (a b : Int) (h : -2147483648 ≤ a - b ∧ a - b < 2147483648) :
     (Librfn.Gen.Util.cyclecmp32 (w32 a) (w32 b)).toInt = a - b := by
-  unfold Librfn.Gen.Util.cyclecmp32
+  rw [cyclecmp32_tie]
   exact sub_toInt_window a b h
 
 /-- **fibre_timeout(D) returns true exactly when D is not after the time given to the current pass** -/
